@@ -49,3 +49,7 @@ def rt_unsubscribe(m):
 
 def rt_unregister(m):
     return M.Unregister.parse(m.marshal())
+
+
+def rt_subscribe(m):
+    return M.Subscribe.parse(m.marshal())
